@@ -396,15 +396,51 @@ theorem centerXY_baseCentre (d b i j : ℕ) (hb : b < 12) :
     (((Layer.centerXY d ⟨b, i, j⟩).2 : ℤ) : ℝ) = (2 : ℝ) ^ d * (baseCentre b).2 + ((i : ℝ) + (j : ℝ) + 1 - (2 : ℝ) ^ d) ∧
     ∃ m : ℤ, (((Layer.centerXY d ⟨b, i, j⟩).1 : ℤ) : ℝ) =
       (2 : ℝ) ^ d * ((baseCentre b).1 + 8 * (m : ℝ)) + ((i : ℝ) - (j : ℝ)) := by
-  unfold Layer.centerXY baseCentre
-  simp only [nside_eq]
   have hq : b / 4 = 0 ∨ b / 4 = 1 ∨ b / 4 = 2 := by omega
+  have hoff : ((((((b % 4) * 2 : ℕ) : ℤ) + (if b / 4 = 1 then 0 else 1) : ℤ)) : ℝ) = (baseCentre b).1 ∧
+      (((1 - ((b / 4 : ℕ) : ℤ) : ℤ)) : ℝ) = (baseCentre b).2 := by
+    unfold baseCentre
+    generalize b % 4 = r
+    rcases hq with h | h | h <;> simp [h] <;> ring
+  obtain ⟨h1, h2⟩ := hoff
+  simp only [Layer.centerXY, nside_eq]
+  generalize ((((b % 4) * 2 : ℕ) : ℤ) + (if b / 4 = 1 then 0 else 1) : ℤ) = ox at h1 ⊢
+  generalize ((1 - ((b / 4 : ℕ) : ℤ) : ℤ)) = oy at h2 ⊢
+  rw [← h1, ← h2]
   constructor
-  · rcases hq with h | h | h <;> simp [h] <;> ring
-  · split
-    · refine ⟨1, ?_⟩
-      rcases hq with h | h | h <;> simp [h] <;> ring
-    · refine ⟨0, ?_⟩
-      rcases hq with h | h | h <;> simp [h] <;> ring
+  · push_cast; ring
+  · by_cases hneg : (i : ℤ) - (j : ℤ) + ox * ((2 ^ d : ℕ) : ℤ) < 0
+    · rw [if_pos hneg]; exact ⟨1, by push_cast; ring⟩
+    · rw [if_neg hneg]; exact ⟨0, by push_cast; ring⟩
+
+/-! ## half-open convention -/
+
+/-- the upper inequality of `gridCoord_spec` is strict except at `v = 2`: inside a base cell the cell owns its two
+    southern edges (`i ≤ … < i + 1`), and only the north-east / north-west border of the base cell (`h ± l = 2`) is
+    attached by the clamp to the last row -/
+theorem gridCoord_half_open (d : ℕ) (hd : d ≤ 32) (v : ℝ) (h0 : 0 ≤ v) (h2 : v < 2) :
+    (2 : ℝ) ^ d / 2 * v < (gridCoord d v : ℝ) + 1 := by
+  unfold gridCoord
+  simp only [r_truncScaleU32, zpow_timeHalfNside, nside_eq]
+  have hpow : (0 : ℝ) < (2 : ℝ) ^ d := by positivity
+  set w := v * ((2 : ℝ) ^ d / 2) with hw
+  have hw0 : 0 ≤ w := by positivity
+  have hwN : w < ((2 ^ d : ℕ) : ℝ) := by push_cast; rw [hw]; nlinarith
+  rw [max_eq_left hw0, show (2 : ℝ) ^ d / 2 * v = w by rw [hw]; ring]
+  have hfN : ⌊w⌋₊ < 2 ^ d := (Nat.floor_lt hw0).mpr hwN
+  have hlt : w < (⌊w⌋₊ : ℝ) + 1 := Nat.lt_floor_add_one w
+  have hN32 : 2 ^ d ≤ 2 ^ 32 := Nat.pow_le_pow_right (by norm_num) hd
+  generalize ⌊w⌋₊ = f at *
+  generalize (2 : ℕ) ^ d = N at *
+  have e1 : min f (2 ^ 32 - 1) = f := min_eq_left (by omega)
+  have e2 : (f == N) = false := by simp; omega
+  rw [e1, e2]
+  simpa using hlt
 
 end Hpx.HashReal
+
+#print axioms Hpx.HashReal.hash_real_contains
+#print axioms Hpx.HashReal.hash_real_contains_spec
+#print axioms Hpx.HashReal.hash_real_contains_spec_partial
+#print axioms Hpx.HashReal.seam_counterexample
+#print axioms Hpx.HashReal.lon_saturation_counterexample
